@@ -9,8 +9,8 @@
    predicts every verdict.
    S ([spec_case]): the verdict is the one determined by the value found in the
    message by field NAME ([get_root]): S = R for this property. *)
-From Coq Require Import List NArith ZArith Bool.
-From YV Require Import Types.StructModel.
+From Coq Require Import List NArith ZArith Bool String.
+From YV Require Import Types.StructModel Gen.ProtoSchema.
 Import ListNotations.
 Local Open Scope Z_scope.
 
@@ -53,18 +53,119 @@ Definition eval (F : list step -> res) (q : query) : bool :=
   | QMapAny p k sub l => res_eq (F (p ++ SKey k :: sub)) l
   end.
 
+(* ---- the schema generated from the .proto sources (Gen/ProtoSchema.v) ---- *)
+Fixpoint str_index (s : string) (l : list string) (i : N) : option N :=
+  match l with
+  | [] => None
+  | x :: r => if String.eqb x s then Some i else str_index s r (i + 1)%N
+  end.
+Fixpoint assoc_s {A} (k : string) (l : list (string * A)) : option A :=
+  match l with
+  | [] => None
+  | (k', v) :: r => if String.eqb k' k then Some v else assoc_s k r
+  end.
+(* the number of a field name in the module's generated name table; a name the
+   .proto sources do not have gets a number no generated field has *)
+Definition nm (module s : string) : N :=
+  match assoc_s module proto_schemas with
+  | Some (names, _) => match str_index s names 0%N with Some i => i | None => 4000000%N end
+  | None => 5000000%N
+  end.
+Definition generated_schema (module : string) : option ty := option_map snd (assoc_s module proto_schemas).
+
+Definition ity_eqb (a b : ity) : bool :=
+  match a, b with I32, I32 | I64, I64 | U32, U32 | U64, U64 | IEnum, IEnum => true | _, _ => false end.
+Definition kty_eqb (a b : kty) : bool :=
+  match a, b with KInt x, KInt y => ity_eqb x y | KStr, KStr => true | _, _ => false end.
+Definition syn_eqb (a b : syntax) : bool :=
+  match a, b with Proto2, Proto2 | Proto3, Proto3 => true | _, _ => false end.
+(* same fields (name, number, ignored, type) in the same order; the generated extras are not compared *)
+Fixpoint ty_eqb (a b : ty) : bool :=
+  match a, b with
+  | TInt i, TInt j => ity_eqb i j
+  | TFloat, TFloat | TBool, TBool | TStr, TStr => true
+  | TMsg s1 f1 _, TMsg s2 f2 _ =>
+      syn_eqb s1 s2 &&
+      (fix go (l1 l2 : list fdesc) : bool :=
+         match l1, l2 with
+         | [], [] => true
+         | FD n1 k1 g1 t1 :: r1, FD n2 k2 g2 t2 :: r2 =>
+             N.eqb n1 n2 && N.eqb k1 k2 && Bool.eqb g1 g2 && ty_eqb t1 t2 && go r1 r2
+         | _, _ => false
+         end) f1 f2
+  | TArr x, TArr y => ty_eqb x y
+  | TMap k1 v1, TMap k2 v2 => kty_eqb k1 k2 && ty_eqb v1 v2
+  | _, _ => false
+  end.
+
+(* the type a path leads to *)
+Fixpoint type_at (t : ty) (p : list step) : option ty :=
+  match p with
+  | [] => Some t
+  | SField n :: r => match t with
+                     | TMsg _ fs _ => match find_field n fs with Some f => type_at (fd_ty f) r | None => None end
+                     | _ => None
+                     end
+  | SIndex _ :: r => match t with TArr e => type_at e r | _ => None end
+  | SKey _ :: r => match t with TMap _ v => type_at v r | _ => None end
+  end.
+
+Definition lookup_indexes (ops : list op) : list nat :=
+  flat_map (fun o => match o with OLookup l => l | _ => [] end) ops.
+
+(* the field indexes (Symbol::Field { index }, module root excluded) that the
+   compiled rule of a query must contain, in source order *)
+Definition query_indexes (root : ty) (q : query) : option (list nat) :=
+  let direct p := option_map lookup_indexes (compile_path root p []) in
+  let looped p (elem : ty -> option ty) sub :=
+    match compile_path root p [], type_at root p with
+    | Some ops, Some t =>
+        match elem t with
+        | Some e => option_map (fun o2 => lookup_indexes ops ++ lookup_indexes o2) (compile_path e sub [])
+        | None => None
+        end
+    | _, _ => None
+    end in
+  match q with
+  | QDefined p | QEq p _ | QLen p _ => direct p
+  | QAny p sub _ | QAll p sub _ => looped p (fun t => match t with TArr e => Some e | _ => None end) sub
+  | QMapAny p _ sub _ => looped p (fun t => match t with TMap _ v => Some v | _ => None end) sub
+  end.
+
+Fixpoint list_nat_eqb (a b : list nat) : bool :=
+  match a, b with
+  | [], [] => true
+  | x :: a', y :: b' => Nat.eqb x y && list_nat_eqb a' b'
+  | _, _ => false
+  end.
+
+(* a query, the verdict observed, and the field indexes found in the IR of the compiled rule *)
+Definition obs_query := (query * bool * option (list nat))%type.
+
 Record case := mkCase {
-  k_root : ty;
+  k_module : string;
+  k_root : ty;                       (* the descriptor as protobuf reflection shows it *)
   k_msg : value;
-  k_queries : list (query * bool) }.
+  k_queries : list obs_query }.
+
+(* the harness writes field names as strings; [mk] numbers them with the generated name table *)
+Definition mk (module : string) (f : (string -> N) -> ty * value * list obs_query) : case :=
+  let '(r, v, q) := f (nm module) in mkCase module r v q.
 
 Definition check_case (k : case) : bool :=
-  forallb (fun qo => Bool.eqb (eval (lookup (k_root k) (Some (k_msg k)) false) (fst qo)) (snd qo)) (k_queries k).
+  match generated_schema (k_module k) with
+  | None => false
+  | Some g =>
+      (* the schema parsed from the .proto source is the descriptor the library uses *)
+      ty_eqb (k_root k) g &&
+      forallb (fun qo : obs_query =>
+                 let '(q, verdict, idx) := qo in
+                 Bool.eqb (eval (lookup g (Some (k_msg k)) false) q) verdict &&
+                 match idx with
+                 | None => true
+                 | Some l => match query_indexes g q with Some m => list_nat_eqb l m | None => false end
+                 end) (k_queries k)
+  end.
 
 Definition spec_case (k : case) : bool :=
-  forallb (fun qo => Bool.eqb (eval (get_root (k_root k) (Some (k_msg k))) (fst qo)) (snd qo)) (k_queries k).
-
-(* index (within the case) of the queries on which model / specification and implementation disagree *)
-Definition disagreeing (F : list step -> res) (k : case) : list nat :=
-  map fst (filter (fun iq => negb (Bool.eqb (eval F (fst (snd iq))) (snd (snd iq))))
-                  (combine (seq 0 (length (k_queries k))) (k_queries k))).
+  forallb (fun qo : obs_query => Bool.eqb (eval (get_root (k_root k) (Some (k_msg k))) (fst (fst qo))) (snd (fst qo))) (k_queries k).
